@@ -1407,6 +1407,12 @@ func nbtFieldModel(o *hx.Out, r *hx.Rng) {
 
 // Marshal / Builder / Scan: fields in order; Scan ignores what is left
 func packets(o *hx.Out, r *hx.Rng, all []Ty) {
+	// packets built earlier and not yet consumed: building later packets must not change them
+	type kept struct {
+		p    pk.Packet
+		want []byte
+	}
+	var held []kept
 	for i := 0; i < o.N(1500, 10); i++ {
 		k := r.Intn(5)
 		var ts []Ty
@@ -1447,6 +1453,16 @@ func packets(o *hx.Out, r *hx.Rng, all []Ty) {
 		}
 		if !bytes.Equal(p1.Data, want) || !bytes.Equal(p2.Data, want) || p1.ID != int32(i) || p2.ID != int32(i) {
 			o.Fail("C06.compose.marshal", "Marshal=%s Builder=%s want=%s", hexs(p1.Data), hexs(p2.Data), hexs(want))
+		}
+		for _, h := range held {
+			if !bytes.Equal(h.p.Data, h.want) {
+				o.Fail("C06.compose.marshal-held", "a packet built %d Marshal calls ago changed while later packets were built: now %s was %s", len(held), hexs(h.p.Data), hexs(h.want))
+				break
+			}
+		}
+		held = append(held, kept{p1, want}, kept{p2, want})
+		if len(held) > 8 {
+			held = held[2:]
 		}
 		data := append([]byte{}, p1.Data...)
 		p1.Data = append(p1.Data[:len(p1.Data):len(p1.Data)], extra...)
